@@ -63,6 +63,59 @@ def run_config(run, cfg, seed, tag):
                             "marginal_prediction": obs["marginal_prediction"]})
 
 
+def run_shared(run, cfg, seed, tag):
+    """IncrementalSage and IncrementalPFI sharing ONE storage and ONE imputer (as the repository's examples do): the SAGE
+    call leaves the storage alone, the PFI call updates it; both are judged against their references on every step."""
+    from ixai.explainer import IncrementalPFI
+    from ..explref import PfiRef
+    try:
+        sc = Scenario(cfg, seed)
+        pfi = IncrementalPFI(sc.model, sc.loss, sc.names, storage=sc.storage, imputer=sc.imputer, n_inner_samples=cfg["n_inner"],
+                             dynamic_setting=cfg["dyn"], smoothing_alpha=cfg["alpha"])
+    except Exception as ex:
+        run.other_error(f"C15:construct:{type(ex).__name__}")
+        return
+    run.count("shared-storage-configs")
+    sref = SageRef(sc.names, cfg["dyn"], ref_alpha(cfg), cfg["lbib"], sc.model, sc.loss)
+    pref = PfiRef(sc.names, cfg["dyn"], ref_alpha(cfg), sc.model, sc.loss)
+    for t in range(cfg["steps"]):
+        x, y = sc.next_obs()
+        replay = {"cfg": cfg, "seed": seed, "step": t, "shared_storage_and_imputer": True}
+        try:
+            sc.clock.reset()
+            sret = sc.e.explain_one(x, y, update_storage=False)
+            slog = list(sc.clock.log)
+            sc.clock.reset()
+            pret = pfi.explain_one(x, y)
+            plog = list(sc.clock.log)
+        except Exception as ex:
+            run.ok(kind="raised")
+            run.violation("explain-raises", f"{tag} step {t}: {type(ex).__name__}: {ex}", replay)
+            return
+        if t == 0:
+            if [e for e in slog + plog if e[0] in ("model", "loss")] or sret != {} or pret != {}:
+                run.violation("first-observation", f"{tag}: first calls evaluated the model", replay)
+            continue
+        try:
+            sexp = sref.call(x, y, slog, cfg["n_inner"])
+            pexp = pref.call(x, y, plog, cfg["n_inner"])
+        except Mismatch as m:
+            run.ok(kind="chain")
+            run.violation("chain:" + m.what, f"{tag} step {t} (shared storage): {m}", replay)
+            return
+        scale = max(1.0, sc.loss.max_abs)
+        bad = list(compare(sc.snapshot(), sexp, cfg["exact"], scale, pred_scale(sc)))
+        pobs = {"importance": dict(pfi.importance_values), "variances": dict(pfi.variances)}
+        bad += list(compare(pobs, pexp, cfg["exact"], scale))
+        run.ok(len(sexp) + len(pexp), kind="shared-storage")
+        for key, o, e in bad:
+            run.violation("observable:" + key, f"{tag} step {t} (SAGE+PFI sharing storage and imputer): {key} observed {o!r} expected {e!r}", replay)
+        if bad:
+            return
+        if len({v for v in sref.last_contrib.values() if v != 0}) >= 2:
+            run.nontriv(("c03-shared", tag, t))
+
+
 def main(run):
     run.rule = ("seeded configurations from the cfg product; per call the feature order and the imputed sets are read "
                 "off the imputer calls / model inputs (unique feature values), an independent reference recomputes "
@@ -79,3 +132,6 @@ def main(run):
     for i in range(N_CFG[run.tier]):
         cfg = gen_cfg(rnd, "sage", exact=(i % 3 != 2))
         run_config(run, cfg, rnd.randrange(2 ** 31), f"s{run.shard[0]}c{i}")
+        if i % 6 == 5 and cfg["imputer"] != "library-default":
+            cfg2 = dict(cfg, vary_calls=False, warm_start=0)
+            run_shared(run, cfg2, rnd.randrange(2 ** 31), f"s{run.shard[0]}c{i}shared")
